@@ -299,6 +299,11 @@ def run(ctx):
                 jobs.append({"id": len(jobs) + 1, "klass": f"alternative terminal-oxygen spelling {style}", "args": [f"--ff={ff}"] + opts, "fs0": "absent",
                              "fault": None, "kind": "success",
                              "input": "TEXT:" + gen.pdb_text([gen.respell(gen.peptide(["ALA", "SER", "LYS", "GLY", "ASP"]), style, only=("O", "OXT"))])})
+    tri = [a for n in range(3) for a in gen.transform(gen.peptide(["LYS", "ALA", "SER"], chain="A", start=1 + 3 * n), t=(0, 0, 30.0 * n))]
+    for ff in ffs:
+        for label, text in (("homo-trimer under one chain id", gen.pdb_text([tri])),
+                            ("homo-trimer without chain ids or TER", gen.pdb_text([[dict(a, chain="") for a in tri]], ter=False))):
+            jobs.append({"id": len(jobs) + 1, "klass": label, "args": [f"--ff={ff}"], "fs0": "absent", "fault": None, "kind": "success", "input": "TEXT:" + text})
     for klass in CLASSES:
         jobs.append({"id": len(jobs) + 1, "klass": klass, "args": ["--ff=AMBER"] + CLASSES[klass], "fs0": "old",
                      "fault": None, "kind": "success"})
